@@ -70,6 +70,13 @@ def run(tier, seed, out):
     cases = [p for p in printed if "e" in p]
     if len(envs) != 1 or not cases:
         raise kit.MachineryError("C02 generator printed no environments / cases")
+    if tier == "thorough":
+        # beyond the exhaustive bounds: random deeper trees (TLC simulation, seeded)
+        rnd, st = kit.simulate_many("C02_Rand", "C02_Rand", runs=8, num=2500, depth=80, seed=seed)
+        out.states += st
+        out.transitions += st
+        out.extra["random_deep_trees"] = len(rnd)
+        cases += [p for p in rnd if "e" in p]
     for i, c in enumerate(cases):
         c["id"] = i
     kit.log(f"C02: TLC generated {len(cases)} trees ({gen.distinct} states, {gen.wall:.1f}s)")
